@@ -54,6 +54,10 @@ func n09GenCluster(t *rapid.T) *n09Case {
 	var holds []hold
 	// when follower 0 first joins: before / in the middle of / after the workload
 	firstJoin := rapid.SampledFrom([]int{0, 1, nops / 3, nops / 2, nops - 1, nops + 1}).Draw(t, "firstJoin")
+	if rapid.IntRange(0, 9).Draw(t, "joinBeforeAnything") == 0 {
+		c.Ops = append(c.Ops, n09Op{K: "join", F: 0})
+		joined[0] = true
+	}
 	c.Ops = append(c.Ops, n09GenLock(t, keys))
 	for i := 0; i < nops; i++ {
 		if i == firstJoin && !joined[0] {
@@ -181,6 +185,9 @@ func TestC09_Cluster(t *testing.T) {
 		}
 		for i := 0; i < out.info.knownDupFlush; i++ {
 			st.KnownHit(n09KeyDupFlush)
+		}
+		if out.info.excludedEmptyRingJoin > 0 {
+			st.Exclude("workload paused until the handshake of a follower joining an empty leader finished (known finding " + n09KeyFirstTwice + ")")
 		}
 		if out.info.excludedEmptyRotation > 0 {
 			st.Exclude("rotation of an empty append file skipped (known finding " + n09KeyWedged + ")")
